@@ -4,6 +4,6 @@ tier=$1; seed=$2; shift 2
 ids="$@"
 [ -z "$ids" ] && ids=$(/venv/bin/python -c "import json;print(' '.join(c['property_id'] for c in json.load(open('MANIFEST.json'))['checks']))")
 for p in $ids; do
-  out=$(VERIF_SEED=$seed QV_NPROC=${QV_NPROC:-8} QV_NO_EVIDENCE=1 QV_REPLAY_DIR=soak_replays /venv/bin/python -m qv check $p --tier $tier 2>&1)
-  echo "$out" | grep -E "^\[qv\]|^VIOLATION|^  clause|HARNESS" | cut -c1-400
+  out=$(VERIF_SEED=$seed QV_NPROC=${QV_NPROC:-8} QV_NO_EVIDENCE=1 QV_PRINT_MARGINS=1 QV_REPLAY_DIR=soak_replays /venv/bin/python -m qv check $p --tier $tier 2>&1)
+  echo "$out" | grep -E "^\[qv\]|^VIOLATION|^  clause|HARNESS|^MARGIN" | cut -c1-400
 done
